@@ -57,6 +57,25 @@ def huge_extent_jobs(rng, n, extra=()):
                             "--huge", "60", "--cc", "4"] + list(extra)) for i in range(n)]
 
 
+def huge_reuse_jobs(rng, n):
+    """Extents of 257..336 blocks written, replaced and deleted on a device that holds three or four of them: a large
+    extent is placed into space that several earlier retirements left behind (their retirement-marker heads included),
+    then the store is closed / crashed and reopened."""
+    return [("hugereuse%d" % i, ["--seed", str(rng.randrange(1 << 30)), "--steps", "26", "--fmt", str([3, 2, 3, 1][i % 4]), "--blocks", str([1300, 1500][i % 2]),
+                                 "--cpus", "2", "--keys", "3", "--ttl", "1", "--end", "drop", "--flushpct", "40", "--maximages", "60",
+                                 "--huge", "75", "--cc", "4"]) for i in range(n)]
+
+
+def block_boundary_batch_jobs(rng, n):
+    """Batches whose allocation-journal image ends exactly on a block boundary (40 + 8 * 507 = 4096, 40 + 8 * 1019 =
+    8192) and their neighbours: image length and checksum coverage of the journal at the rounding edge."""
+    sizes = [507, 506, 508, 1019]
+    return [("bbatch%d" % i, ["--seed", str(rng.randrange(1 << 30)), "--steps", "7", "--fmt", str([3, 2][i % 2]),
+                              "--blocks", str(1400 if sizes[i % 4] < 1000 else 2500), "--cpus", "2", "--keys", str(sizes[i % 4] + 6), "--ttl", "1",
+                              "--end", "drop", "--flushpct", "5", "--maximages", "24", "--wide", str(sizes[i % 4]), "--wideevery", "4",
+                              "--widefirst", "1", "--cc", "4"]) for i in range(n)]
+
+
 def max_value_jobs(rng, n):
     """Values of exactly MAX_VALUE_SIZE (4 MiB) and one / two bytes less, acknowledged, crashed, recovered."""
     return [("maxval%d" % i, ["--seed", str(rng.randrange(1 << 30)), "--steps", "5", "--fmt", str([3, 2, 1][i % 3]), "--blocks", "3300",
